@@ -102,7 +102,7 @@ func Layer(r *ev.Run) {
 	r.Rule += " || MySQL part: the same table generator with MySQL type ids (STRING 254, BLOB 252, LONG 3, LONGLONG 8) for data_type_db_identifier; the owner writes boundary values through a MySQL-mode AcraServer with the stock go-sql-driver client (differential against a reference fake MySQL holding the declared types: type class, text and binary-protocol values, NULL/empty); readers that cannot reveal (other keys, no keys, owner reading a damaged value) select every typed column alone with COM_QUERY (text rows) and COM_STMT_PREPARE/EXECUTE (binary rows) and must get exactly what the policy says; the wire type id of the column definition is read from the client-side byte stream with the harness codec"
 	r.Assumptions = append(r.Assumptions, "MySQL part: fake MySQL behind AcraServer; policy 'ciphertext': the delivered field must carry the stored bytes; how such a column is described is not judged")
 	rng := gen.New(r.Seed, "c19-mysql")
-	n := r.Pick(20, 600)
+	n := r.Pick(20, 400)
 	only := -1
 	if v := os.Getenv("VERIF_C19MY_SESSION"); v != "" {
 		fmt.Sscan(v, &only)
